@@ -247,19 +247,21 @@ def encAuthOut : AuthOut → Option String
 
 /-! ### printing content in the input syntax (lists in their given order) -/
 
-def encValRaw : Val → String
+/-- `canon = true`: sets printed sorted and without repeats (a set is a value up to order and
+multiplicity: what is compared is the set); `false`: in the given order. -/
+def encValW (canon : Bool) : Val → String
   | .atom a => encAtom a
-  | .set l => "(set" ++ String.join (l.map fun a => " " ++ encAtom a) ++ ")"
+  | .set l => if canon then encVal (.set l) else "(set" ++ String.join (l.map fun a => " " ++ encAtom a) ++ ")"
 
-def encTermSx : Term Val → String
+def encTermW (c : Bool) : Term Val → String
   | .var n => "(v " ++ encodeHex n ++ ")"
-  | .const v => encValRaw v
+  | .const v => encValW c v
 
-def encPredSx (p : Pred Val) : String :=
-  "(p " ++ encodeHex p.name ++ String.join (p.terms.map fun t => " " ++ encTermSx t) ++ ")"
+def encPredW (c : Bool) (p : Pred Val) : String :=
+  "(p " ++ encodeHex p.name ++ String.join (p.terms.map fun t => " " ++ encTermW c t) ++ ")"
 
-def encFactRaw (f : Fact Val) : String :=
-  "(f " ++ encodeHex f.name ++ String.join (f.args.map fun t => " " ++ encValRaw t) ++ ")"
+def encFactW (c : Bool) (f : Fact Val) : String :=
+  "(f " ++ encodeHex f.name ++ String.join (f.args.map fun t => " " ++ encValW c t) ++ ")"
 
 def encUn : UnOp → String
   | .negate => "neg" | .parens => "par" | .length => "len"
@@ -270,26 +272,36 @@ def encBin : BinOp → String
   | .mul => "mul" | .div => "div" | .and => "and" | .or => "or" | .intersection => "intersection"
   | .union => "union"
 
-def encOpSx : Op → String
-  | .value t => encTermSx t
+def encOpW (c : Bool) : Op → String
+  | .value t => encTermW c t
   | .unary u => "(u " ++ encUn u ++ ")"
   | .binary b => "(bin " ++ encBin b ++ ")"
 
-def encExprSx (e : Expr) : String := "(e" ++ String.join (e.map fun o => " " ++ encOpSx o) ++ ")"
+def encExprW (c : Bool) (e : Expr) : String := "(e" ++ String.join (e.map fun o => " " ++ encOpW c o) ++ ")"
 
 def spaced (l : List String) : String := " ".intercalate l
 
-def encRuleSx (r : DRule) : String :=
-  "(r " ++ encPredSx r.head ++ " (" ++ spaced (r.body.map encPredSx) ++ ") (" ++ spaced (r.exprs.map encExprSx) ++ "))"
+def encRuleW (c : Bool) (r : DRule) : String :=
+  "(r " ++ encPredW c r.head ++ " (" ++ spaced (r.body.map (encPredW c)) ++ ") (" ++ spaced (r.exprs.map (encExprW c)) ++ "))"
 
 def tagged (tag : String) (items : List String) : String :=
   if items.isEmpty then "(" ++ tag ++ ")" else "(" ++ tag ++ " " ++ spaced items ++ ")"
 
-def encCheckSx (c : Check) : String := tagged "check" (c.queries.map encRuleSx)
+def encCheckW (c : Bool) (ck : Check) : String := tagged "check" (ck.queries.map (encRuleW c))
 
-def encBlockSx (b : Block) : String :=
-  "(block " ++ tagged "facts" (b.facts.map encFactRaw) ++ " " ++ tagged "rules" (b.rules.map encRuleSx) ++ " " ++
-    tagged "checks" (b.checks.map encCheckSx) ++ ")"
+def encBlockW (c : Bool) (b : Block) : String :=
+  "(block " ++ tagged "facts" (b.facts.map (encFactW c)) ++ " " ++ tagged "rules" (b.rules.map (encRuleW c)) ++ " " ++
+    tagged "checks" (b.checks.map (encCheckW c)) ++ ")"
+
+def encValRaw := encValW false
+def encTermSx := encTermW false
+def encPredSx := encPredW false
+def encFactRaw := encFactW false
+def encOpSx := encOpW false
+def encExprSx := encExprW false
+def encRuleSx := encRuleW false
+def encCheckSx := encCheckW false
+def encBlockSx := encBlockW false
 
 /-- Which gate rejects first on ill-formed bytes depends on protobuf-go's parsing details;
 the protocol compares accept / reject / reject nokey. -/
